@@ -237,6 +237,10 @@ impl IOQueue {
     //@+     final(self).wf(),
     //@+     final(self).bytes() == old(self).bytes().skip(amt as int),
     //@+     final(self).length_field() == old(self).length_field() - amt,
+    //@+     // a front chunk whose rest is consumed completely (in particular an empty one, with amt == 0) is removed: it cannot block
+    //@+     // the chunks behind it; a partly consumed one stays
+    //@+     old(self).chunks_view().len() > 0 && amt == old(self).front_rest().len() ==> final(self).chunks_view() =~= old(self).chunks_view().skip(1),
+    //@+     old(self).chunks_view().len() > 0 && amt < old(self).front_rest().len() ==> final(self).chunks_view() =~= old(self).chunks_view(),
     //@subst N11 closure `|chunk| chunk.len()` annotated with its own body as ensures clause /\|chunk\| chunk\.len\(\)/|chunk: &Vec<u8>| -> (n: usize) ensures n == chunk.len() { chunk.len() }/
     //@proof start proof { old(self).lemma_front_is_prefix(); let s = old(self).chunks@; if s.len() > 0 { let rest = s.subrange(1, s.len() as int); assert(flat(s) =~= s[0]@ + flat(rest)); assert(s[0]@.len() == s[0].len()); assert(old(self).front_rest().len() == s[0]@.len() - old(self).offset); assert(old(self).offset + amt <= s[0].len()); assert((s[0]@ + flat(rest)).skip(s[0]@.len() as int) =~= flat(rest)); assert(flat(rest).skip(0) =~= flat(rest)); assert(flat(s).skip(old(self).offset as int).skip(amt as int) =~= flat(s).skip(old(self).offset as int + amt as int)); } else { assert(old(self).bytes().skip(0) =~= old(self).bytes()); } }
 
@@ -248,7 +252,8 @@ impl IOQueue {
     //@+ ensures
     //@+     final(self).wf(),
     //@+     match r {
-    //@+         Ok(k) => k <= old(self).front_rest().len() && final(self).bytes() == old(self).bytes().skip(k as int),
+    //@+         Ok(k) => k <= old(self).front_rest().len() && final(self).bytes() == old(self).bytes().skip(k as int)
+    //@+             && (old(self).chunks_view().len() > 0 && k == old(self).front_rest().len() ==> final(self).chunks_view() =~= old(self).chunks_view().skip(1)),
     //@+         Err(_) => final(self).bytes() == old(self).bytes() && final(self).chunks_view() == old(self).chunks_view(),
     //@+     },
 
@@ -258,6 +263,10 @@ impl IOQueue {
     //@+ ensures
     //@+     final(self).wf(),
     //@+     final(self).bytes() =~= old(self).bytes() + buf@,
+    //@+     // frames are flush-delimited chunks: a write never starts a new one (it only creates the very first chunk), and it
+    //@+     // leaves every chunk but the last untouched - so frame dropping can never cut a frame in the middle
+    //@+     final(self).chunks_view().len() == (if old(self).chunks_view().len() == 0 { 1 } else { old(self).chunks_view().len() }),
+    //@+     forall|i: int| 0 <= i < old(self).chunks_view().len() - 1 ==> final(self).chunks_view()[i] == old(self).chunks_view()[i],
     //@+     r == Ok::<usize, std::io::Error>(buf@.len() as usize),
     //@proof start proof { let s = old(self).chunks@; assert forall|sm: Seq<Vec<u8>>, v2: Vec<u8>| sm.len() > 0 && v2@ == sm.last()@ + buf@ implies #[trigger] flat(sm.drop_last().push(v2)) == flat(sm) + buf@ by { lemma_flat_write(sm, v2, buf@); } assert forall|v: Vec<u8>| v@.len() == 0 implies #[trigger] flat(s.push(v)) == flat(s) by { lemma_flat_push_empty(s, v); } }
 
@@ -266,6 +275,10 @@ impl IOQueue {
     //@+ ensures
     //@+     final(self).wf(),
     //@+     final(self).bytes() =~= old(self).bytes(),
+    //@+     // flush only ever closes the current frame: existing chunks are untouched and at most one (empty) chunk is opened after them
+    //@+     old(self).chunks_view().len() <= final(self).chunks_view().len() <= old(self).chunks_view().len() + 1,
+    //@+     forall|i: int| 0 <= i < old(self).chunks_view().len() ==> final(self).chunks_view()[i] == old(self).chunks_view()[i],
+    //@+     final(self).chunks_view().len() == old(self).chunks_view().len() + 1 ==> final(self).chunks_view().last()@.len() == 0,
     //@+     final(self).chunks_view().len() >= old(self).chunks_view().len(),
     //@+     r is Ok,
     //@proof start proof { let s = old(self).chunks@; assert forall|v: Vec<u8>| v@.len() == 0 implies #[trigger] flat(s.push(v)) == flat(s) by { lemma_flat_push_empty(s, v); } }
